@@ -321,6 +321,9 @@ def run(tier):
                     "of length 0 and 1, " + ("all ordered pairs of steps" if thorough else "400 seeded pairs") + " as histories of length 2 (each with " + ("7" if thorough else "4") + " seeded probes)" + (", 3000 seeded of length 3" if thorough else "")
                     + ", each followed by probes compared with a fresh process; footprint step over every (input, entry point)",
         pool=POOL, conditions_confirmed=nconf, footprint_steps_clean=nfp, histories_agreeing=nhist_ok,
+        functions_encoded=["Compiler.compile_c_stmt", "Compiler.transform_insn", "Compiler.compile_insn", "RZILTransformer.reset",
+                           "ILOpsHolder.clear", "HexagonTransformerExtension.reset_flags / set_token_meta_data / get_meta (CrossHair)",
+                           "class-level state of Compiler, PreprocessorHexagon, HexagonTransformerExtension"],
         long_histories=dict(programs=len(lprogs), orders=norders, programs_agreeing=nlong_ok,
                             explanation="(d) every program of the mixed family + the pool + interleaved failing inputs compiled once per process in "
                                         f"{norders} different seeded orders (two instances in turn, entry point fixed per program): status, attributes and "
